@@ -104,8 +104,15 @@ fn replace_vec(v: &mut Vec<BedEntry>, n: Vec<BedEntry>) -> (r: Vec<BedEntry>)
 /// The coverage sweep (closure `add_interval_to_summary`) is verified in unit bb_sweep.  Here its
 /// definition is cut out and the call goes to this shim: no contract at all, i.e. `overlap` and
 /// `summary` are havocked.  Frame assumption (by its signature): it touches only those two.
+/// What it does to its two arguments is a deterministic function of what it is given (uninterpreted here: unit bb_sweep
+/// owns the content) -- so the CALL is pinned: which start, which end, which look-ahead.
+pub uninterp spec fn sweep_summary(s: Option<Summary>, o: Overlap, item_start: u32, item_end: u32, next_start: Option<u32>) -> Option<Summary>;
+pub uninterp spec fn sweep_overlap(s: Option<Summary>, o: Overlap, item_start: u32, item_end: u32, next_start: Option<u32>) -> Overlap;
 #[verifier::external_body]
 fn add_interval_to_summary(overlap: &mut Overlap, summary: &mut Option<Summary>, item_start: u32, item_end: u32, next_start_opt: Option<u32>)
+    ensures
+        *final(summary) == sweep_summary(*old(summary), *old(overlap), item_start, item_end, next_start_opt),
+        *final(overlap) == sweep_overlap(*old(summary), *old(overlap), item_start, item_end, next_start_opt),
 { unimplemented!() }
 
 // ---------------- specification vocabulary (from the property texts) ----------------
@@ -232,6 +239,11 @@ fn process_val(
             && *final(summary) == *old(summary) && *final(overlap) == *old(overlap),
         
         r.is_ok() ==> accepted(*final(ftx), final(items)@) == accepted(*old(ftx), old(items)@).push(current_val),
+        // C06: the coverage sweep sees the entry's OWN extent (also where it reaches past the chromosome length: the
+        // writer accepts such entries and the readers return them whole) and the start of the next entry
+        
+        r.is_ok() ==> *final(summary) == sweep_summary(*old(summary), *old(overlap), current_val.start, current_val.end, match next_val { Some(v) => Some(v.start), None => None })
+            && *final(overlap) == sweep_overlap(*old(summary), *old(overlap), current_val.start, current_val.end, match next_val { Some(v) => Some(v.start), None => None }),
         
         r.is_ok() ==> ({
             let all = old(items)@.push(current_val);
@@ -307,7 +319,7 @@ fn process_val(
         summary,
         current_val.start,
         current_val.end,
-        next_val.map(|v| v.start),
+        (match next_val { Some(v) => Some(v.start), None => None }),
     );
 
     // Then, add the current item to the actual values, and encode if full, or last item
